@@ -766,7 +766,7 @@ fn step_strategy() -> impl Strategy<Value = WStep> {
 pub fn main(args: &Args) -> i32 {
     let (cases, len) = match args.tier {
         Tier::Quick => (800, 6..30),
-        Tier::Thorough => (16 * 1200, 6..50),
+        Tier::Thorough => (16 * 5000, 6..50),
     };
     let spec = Spec {
         id: "C16",
